@@ -326,7 +326,8 @@ def main(argv: Optional[List[str]] = None) -> int:
         hid = hs[r['i']][0].id
         if not r['error'] and not r['obligations']:
             vac.append('%s: zero obligations' % hid)
-        if not r['error'] and r['paths'] == 0:
+        if not r['error'] and r['paths'] == 0 and not any(ob.get('known') for ob in r['obligations']):
+            # (a harness that only demonstrates a recorded known finding ends every path at the refuted clause)
             vac.append('%s: no complete path (contradictory precondition?)' % hid)
         for cname, cnt in r['covers'].items():
             if cnt == 0:
